@@ -212,3 +212,85 @@ pub fn data_codewords_for_shape(v: usize, level: usize, shape: usize, seed: u64)
 pub fn payload_for_shape(v: usize, level: usize, shape: usize, seed: u64) -> Vec<u8> {
     payload_for_data_codewords(v, level, &data_codewords_for_shape(v, level, shape, seed))
 }
+
+/// Byte payload (capacity-filling, forced version/level/mask) whose FINAL symbol has exactly `k` dark modules
+/// (function patterns and format information included). The count is data dependent and lands on a given value
+/// with probability of the order of 1/100 for a random payload. The modules of the data codewords can be steered
+/// bit by bit; the EC codewords of a block are re-rolled by any change in that block. So: (A) hill-climb the number
+/// of dark DATA-codeword modules to `k - (what the rest contributes on average)`, (B) keep that number fixed and
+/// re-roll the rest with neutral changes until the total is exactly `k`. Judged by the oracle's own encoder
+/// (segment encoder + RS + placement + mask + format). None if `budget` encodes do not suffice.
+pub fn payload_for_dark_count(v: usize, level: usize, mask: usize, k: usize, seed: u64, budget: usize) -> Option<Vec<u8>> {
+    let len = tables::capacity(v, level, BYTE);
+    let lay = tables::layout(v, level);
+    let map = region_map(v);
+    let ndata_bits = 8 * lay.data_codewords;
+    let mut rng = oracle::rng::Rng::new(seed ^ 0xda2c);
+    // (dark modules of the data codewords, dark modules of everything else)
+    let eval = |p: &[u8]| -> Option<(usize, usize)> {
+        let d = oracle::segment::data_codewords(BYTE, v, level, p).ok()?;
+        let m = oracle::decode::build_symbol(v, level, mask, &d);
+        let total = m.dark.iter().filter(|&&b| b).count();
+        let data = map.zigzag.iter().take(ndata_bits).filter(|&&(r, c)| m.get(r, c)).count();
+        Some((data, total - data))
+    };
+    if len < 4 {
+        return None;
+    }
+    let mut p: Vec<u8> = (0..len).map(|_| rng.byte()).collect();
+    p[0] = b'~'; // outside the 45-character set: the class stays "byte" whatever happens to the rest
+    let (mut data, mut rest) = eval(&p)?;
+    let mut used = 1usize;
+    let (mut rest_sum, mut rest_n) = (rest as f64, 1.0f64);
+    loop {
+        if data + rest == k {
+            break;
+        }
+        if used >= budget {
+            if std::env::var_os("VERIF_DEBUG_DARK").is_some() {
+                eprintln!("dark search v{v} level {level} mask {mask}: target {k}, stopped at {} after {used} encodes", data + rest);
+            }
+            return None;
+        }
+        let want_data = k as f64 - rest_sum / rest_n;
+        if want_data < 0.0 || want_data > ndata_bits as f64 {
+            return None;
+        }
+        let gap = want_data - data as f64;
+        let at = 1 + rng.below(len - 1);
+        let old = p[at];
+        if gap.abs() > 12.0 {
+            p[at] = rng.byte();
+        } else if gap.abs() >= 1.0 {
+            p[at] ^= 1u8 << rng.below(8);
+        } else {
+            // neutral re-roll: two bit flips somewhere in the payload
+            p[at] ^= 1u8 << rng.below(8);
+            let at2 = 1 + rng.below(len - 1);
+            p[at2] ^= 1u8 << rng.below(8);
+            let (d2, r2) = eval(&p)?;
+            used += 1;
+            rest_sum += r2 as f64;
+            rest_n += 1.0;
+            // (the changed state is kept either way: if the data count moved, the next rounds steer it back)
+            data = d2;
+            rest = r2;
+            continue;
+        }
+        let (d2, r2) = eval(&p)?;
+        used += 1;
+        rest_sum += r2 as f64;
+        rest_n += 1.0;
+        if (d2 as f64 - want_data).abs() <= gap.abs() {
+            data = d2;
+            rest = r2;
+        } else {
+            p[at] = old;
+        }
+    }
+    if std::env::var_os("VERIF_DEBUG_DARK").is_some() {
+        eprintln!("dark search v{v} level {level} mask {mask}: target {k} reached after {used} encodes");
+    }
+    Some(p)
+}
+
